@@ -52,16 +52,29 @@ type scen struct {
 	Faults []string
 	NMsg   int
 	Pace   int
+	Begin  string
+	Veto   bool
 }
 
 func (s scen) String() string {
-	return fmt.Sprintf("store=%s faults=%v sends/side=%d pace<%dms", s.Store, s.Faults, s.NMsg, s.Pace)
+	return fmt.Sprintf("%s store=%s faults=%v sends/side=%d pace<%dms veto=%v", s.Begin, s.Store, s.Faults, s.NMsg, s.Pace, s.Veto)
 }
 
 func scenario(c *core.Ctx, r *core.Result, idx int, rng *rand.Rand, isolated bool) (verdict string) {
 	// Pace: upper bound of the pause between two sends; the slow paces keep both applications sending across all
 	// faults, so that sends fall between failed logon attempts and inside recoveries
-	sc := scen{Store: core.Pick(rng, "memory", "memory", "file"), NMsg: 30 + rng.Intn(41), Pace: core.Pick(rng, 40, 40, 120, 250)}
+	sc := scen{Store: core.Pick(rng, "memory", "memory", "file"), NMsg: 30 + rng.Intn(41), Pace: core.Pick(rng, 40, 40, 120, 250),
+		Begin: core.Pick(rng, "FIX.4.2", "FIX.4.2", "FIX.4.4", "FIX.4.1", "FIX.4.0", "FIX.4.3"), Veto: rng.Intn(3) == 0}
+	// in a third of the scenarios the sending application vetoes a few of its own messages in ToApp: those sends
+	// fail as a whole (they are not "accepted for sending") and must leave the session fully usable
+	veto := func(m *quickfix.Message) error {
+		if id, _ := m.Body.GetString(58); sc.Veto && len(id) > 0 && (id[len(id)-1] == '7') {
+			if pd, _ := m.Header.GetString(43); pd != "Y" {
+				return quickfix.ErrDoNotSend
+			}
+		}
+		return nil
+	}
 	nf := 1 + rng.Intn(4)
 	for i := 0; i < nf; i++ {
 		k := core.Pick(rng, "cut-bytes", "cut-bytes", "cut-bytes", "cut-now", "cut-during-logon", "cut-during-logon", "cut-during-replay")
@@ -75,7 +88,7 @@ func scenario(c *core.Ctx, r *core.Result, idx int, rng *rand.Rand, isolated boo
 	rec := &live.Recorder{} // (callbacks are also recorded; the oracle uses its own lists)
 	tag := fmt.Sprintf("%dx%d", idx, rng.Intn(1<<20))
 	accPort := live.FreePort()
-	A := &side{name: "acceptor", opts: live.Options{Who: "acceptor", Begin: "FIX.4.2", Sender: "ACC" + tag, Target: "INI" + tag, Port: accPort, StoreKind: sc.Store, StoreDir: dir, R: rec, Extra: map[string]string{"LogonTimeout": "2"}}}
+	A := &side{name: "acceptor", opts: live.Options{Who: "acceptor", Begin: sc.Begin, Sender: "ACC" + tag, Target: "INI" + tag, Port: accPort, StoreKind: sc.Store, StoreDir: dir, R: rec, Extra: map[string]string{"LogonTimeout": "2"}, ToApp: veto}}
 	var err error
 	for try := 0; try < 3; try++ {
 		if A.eng, err = live.StartAcceptor(A.opts); err == nil {
@@ -92,7 +105,7 @@ func scenario(c *core.Ctx, r *core.Result, idx int, rng *rand.Rand, isolated boo
 		return "inconclusive: proxy: " + err.Error()
 	}
 	defer px.Close()
-	I := &side{name: "initiator", init: true, opts: live.Options{Who: "initiator", Begin: "FIX.4.2", Sender: "INI" + tag, Target: "ACC" + tag, Port: pxPort, StoreKind: sc.Store, StoreDir: dir, R: rec, Extra: map[string]string{"LogonTimeout": "2"}}}
+	I := &side{name: "initiator", init: true, opts: live.Options{Who: "initiator", Begin: sc.Begin, Sender: "INI" + tag, Target: "ACC" + tag, Port: pxPort, StoreKind: sc.Store, StoreDir: dir, R: rec, Extra: map[string]string{"LogonTimeout": "2"}, ToApp: veto}}
 	if I.eng, err = live.StartInitiator(I.opts); err != nil {
 		A.eng.Stop()
 		return "inconclusive: cannot start initiator: " + err.Error()
